@@ -19,7 +19,8 @@ Record case := {
   c_blocks : list block;
   c_edges : list edge;
   c_dumps : list dump;
-  c_inter : list (replication * replication * replication)   (* (a, b, what the real `Replication::intersect` answers) *)
+  c_inter : list (replication * replication * replication);  (* (a, b, what the real `Replication::intersect` answers) *)
+  c_expect_fwd : list nat   (* blocks closed by `.replication(..)` / `.route()`: their outgoing connections must be forward *)
 }.
 
 (** generic insertion sort with a boolean order, for canonical forms *)
@@ -146,8 +147,11 @@ Definition ports_ok (c : case) (d : dump) : bool :=
 
 (** (e) combined requirements: the intersection table answered by the code is the
     specified one (One below Host below Limited(min) below Unlimited) *)
+Definition expected_forward_ok (c : case) : bool :=
+  forallb (fun b => forallb (fun e => if Nat.eqb (e_from e) b then e_forward e else true) (c_edges c)) (c_expect_fwd c).
+
 Definition prop_ok (c : case) : bool :=
-  all_equal c && forallb (fun d => placement_ok c d && links_ok c d && ports_ok c d) (c_dumps c) && inter_matches c.
+  expected_forward_ok c && all_equal c && forallb (fun d => placement_ok c d && links_ok c d && ports_ok c d) (c_dumps c) && inter_matches c.
 
 Definition known_class (c : case) : N := 0%N.
 
